@@ -29,85 +29,75 @@ Theorem C10_check_finds : forall v, scan v = true <-> occurs_err v.
 Proof. exact scan_complete. Qed.
 
 (* evaluate: returns None only when there is no expression; a value only if it is the
-   error-free value celpy returned; a PermFail naming the location when celpy failed — and it
-   RAISES exactly when celpy raised an error whose tree tree_dump cannot print. *)
+   error-free value celpy returned; otherwise (celpy failed) a PermFail naming the location.
+   It is total: no exception escapes. *)
 Theorem C10_evaluate_sound : forall e loc,
   match evaluate e loc with
-  | Done ENone => e = None
-  | Done (EVal v) => e = Some (RVal v) /\ err_free v
-  | Done (EFail o) => (exists r, e = Some r /\ failed r) /\ names_loc loc o
-  | Raised _ => e = Some (RRaise false)
+  | ENone => e = None
+  | EVal v => e = Some (RVal v) /\ err_free v
+  | EFail o => (exists r, e = Some r /\ failed r) /\ names_loc loc o
   end.
 Proof. exact evaluate_cases. Qed.
 
 Theorem C10_evaluate_failure_is_permfail : forall r loc,
-  failed r -> ~ undumpable r ->
-  exists o, evaluate (Some r) loc = Done (EFail o) /\ names_loc loc o.
+  failed r -> exists o, evaluate (Some r) loc = EFail o /\ names_loc loc o.
 Proof. exact evaluate_failed. Qed.
 
 (* evaluate_overlay (given an error-free base): a value only if celpy did not fail, and then
-   an error-free one; any outcome is a PermFail naming the location; an exception escapes only
-   for an undumpable raised error, or from the applier when the index does not fit the list *)
+   an error-free one; any outcome is a PermFail naming the location; the only exception that
+   can escape is the applier's IndexError when the index does not fit the value list *)
 Theorem C10_evaluate_overlay_sound : forall idx r base loc,
   err_free (VMap base) ->
   match evaluate_overlay idx r base loc with
   | Done (UVal v) => ~ failed r /\ err_free v
   | Done (UOut o) => names_loc loc o
-  | Raised _ => undumpable r \/
-                exists l, r = RVal (VList l) /\ idx_in_range idx (List.length l) = false
+  | Raised _ => exists l, r = RVal (VList l) /\ idx_in_range idx (List.length l) = false
   end.
 Proof. exact evaluate_overlay_cases. Qed.
 
 Theorem C10_evaluate_overlay_failure_is_permfail : forall idx r base loc,
-  failed r -> ~ undumpable r ->
-  exists o, evaluate_overlay idx r base loc = Done (UOut o) /\ names_loc loc o.
+  failed r -> exists o, evaluate_overlay idx r base loc = Done (UOut o) /\ names_loc loc o.
 Proof. exact evaluate_overlay_failed. Qed.
 
 (* evaluate_predicates: celpy failed => PermFail naming the location; the result never is an
-   Ok (it carries no data); any outcome other than the two evaluation-failure PermFails was
-   computed from an error-free list, so no message is the text of an error object *)
+   Ok (it carries no data); any other outcome was computed from an error-free list, so no
+   message is the text of an error object *)
 Theorem C10_evaluate_predicates_failure_is_permfail : forall r loc,
-  failed r -> ~ undumpable r ->
-  exists o, evaluate_predicates_raw r loc = Done (Some o) /\ names_loc loc o.
+  failed r -> exists o, evaluate_predicates_raw r loc = Some o /\ names_loc loc o.
 Proof. exact evaluate_predicates_failed. Qed.
 
 Theorem C10_evaluate_predicates_no_data : forall r loc o,
-  evaluate_predicates_raw r loc = Done (Some o) -> is_ok o = false.
+  evaluate_predicates_raw r loc = Some o -> is_ok o = false.
 Proof. exact evaluate_predicates_not_ok. Qed.
 
 Theorem C10_evaluate_predicates_from_clean : forall v loc o,
-  evaluate_predicates_raw (RVal v) loc = Done (Some o) ->
-  o <> fail_eval loc -> o <> fail_exn loc -> err_free v.
+  evaluate_predicates_raw (RVal v) loc = Some o -> o <> fail_eval loc -> err_free v.
 Proof. exact evaluate_predicates_from_clean. Qed.
 
 (* ValueFunction: for EVERY assignment of raw results to its sites (preconditions, locals,
    return) and every error-free value_base:
    1. a returned value never contains an error object;
    2. if celpy reported a failure at a site that was reached, the outcome is a PermFail naming
-      that site's location (unless it raised an error with an undumpable tree: see 3);
-   3. nothing raises — given that the return overlay's index fits the value list (which
-      prepare guarantees) AND that celpy raised no error with an undumpable tree. *)
+      that site's location;
+   3. nothing raises (given that the return overlay's index fits the value list, which
+      prepare guarantees). *)
 Theorem C10_vf_no_leak : forall f base loc,
   err_free (VMap (base_map base)) ->
   (forall v, fst (reconcile_vf f base loc) = Done (UVal v) -> err_free v) /\
   (forall s rw, In s (snd (reconcile_vf f base loc)) -> vf_raw_at f s = Some rw -> failed rw ->
-     ~ undumpable rw ->
      exists o, fst (reconcile_vf f base loc) = Done (UOut o) /\ names_loc (sloc loc (part s)) o) /\
-  (vf_ret_fits f -> vf_dumpable f -> exists u, fst (reconcile_vf f base loc) = Done u).
+  (vf_ret_fits f -> exists u, fst (reconcile_vf f base loc) = Done u).
 Proof. exact vf_no_leak. Qed.
 
-(* GENUINE DEFECT (see notes/C10.md, known_findings.d/C10.json): the premise [vf_dumpable]
-   cannot be dropped.  Full intended statement of clause 3:
-       vf_ret_fits f -> exists u, fst (reconcile_vf f base loc) = Done u.
-   It is FALSE for the code as it is: evaluate / evaluate_overlay / evaluate_predicates call
-   celpy.celparser.tree_dump(err.tree) inside `except celpy.CELEvalError`, and tree_dump raises
-   IndexError on trees such as `inputs.items == []`; witness: a ValueFunction whose return
-   expression makes celpy raise such an error. *)
-Theorem C10_vf_exception_escapes_refuted :
-  exists f base loc,
-    err_free (VMap (base_map base)) /\ vf_ret_fits f /\
-    fst (reconcile_vf f base loc) = Raised IndexError.
-Proof. exact vf_exception_escapes_refuted. Qed.
+(* "No exception escapes" for the three wrappers is carried by their types: [evaluate] and
+   [evaluate_predicates_raw] are total functions into outcome-or-value types for EVERY raw
+   result (both except clauses of the Python are modelled, and since /repo 4ee1f6b the
+   CELEvalError handler cannot raise: see the regression cases corpus/C10/01, 10 and
+   corpus/C13/11, 12); [evaluate_overlay] and [reconcile_vf] can only return [Raised] through
+   the applier's IndexError, excluded by [vf_ret_fits] (clause 3 above). *)
+Theorem C10_no_exception_escapes : forall f base loc,
+  vf_ret_fits f -> exists u, fst (reconcile_vf f base loc) = Done u.
+Proof. exact vf_no_exception. Qed.
 
 (* ResourceFunction — PARTIAL.  Full statement: the same three clauses for all sites of a
    ResourceFunction (apiConfig name, template name, resource, every overlay / skipIf / inputs,
@@ -115,20 +105,20 @@ Proof. exact vf_exception_escapes_refuted. Qed.
    object".  Proved here: the four sites of reconcile_resource_function itself
    (preconditions, locals, postconditions, return), for every behaviour [krm] of
    reconcile_krm_resource (the value returned by the function is the `return` expression's
-   value only).  Missing: a model of reconcile_krm_resource
-   (resource_function/reconcile/__init__.py:127-700) and of workflow/reconcile.py. *)
+   value only).  Missing: a model of
+   reconcile_krm_resource (resource_function/reconcile/__init__.py:127-700). *)
 Theorem C10_rf_no_leak_partial : forall (call : Type) krm f loc r t (calls : list call),
   reconcile_rf call krm f loc = (r, t, calls) ->
-  (forall v, r = Done (Some (UVal v)) -> err_free v) /\
-  (forall s rw, In s t -> rf_raw_at f s = Some rw -> failed rw -> ~ undumpable rw ->
-     exists o, r = Done (Some (UOut o)) /\ names_loc (sloc loc (part s)) o).
+  (forall v, r = Some (UVal v) -> err_free v) /\
+  (forall s rw, In s t -> rf_raw_at f s = Some rw -> failed rw ->
+     exists o, r = Some (UOut o) /\ names_loc (sloc loc (part s)) o).
 Proof. exact rf_no_leak_partial. Qed.
 
 (* non-vacuity: an error buried in a list inside a map inside a list is found; a function whose
    locals hold such a value PermFails at spec.locals although the return expression would
    succeed; a clean function returns an error-free merge *)
 Example C10_nonvacuous :
-  let deep := VMap [(VStr "a", VList [VMap [(VStr "b", VInt 1); (VStr "c", VList [VStr "x"; VErr true])]])] in
+  let deep := VMap [(VStr "a", VList [VMap [(VStr "b", VInt 1); (VStr "c", VList [VStr "x"; VErr])]])] in
   occurs_err deep /\ scan deep = true /\
   failed (RVal deep) /\
   (exists o, fst (reconcile_vf {| vf_pre := None; vf_locals := Some (RVal deep);
@@ -142,7 +132,7 @@ Example C10_nonvacuous :
        [SReturn]).
 Proof.
   cbn zeta.
-  assert (S : scan (VMap [(VStr "a", VList [VMap [(VStr "b", VInt 1); (VStr "c", VList [VStr "x"; VErr true])]])]) = true)
+  assert (S : scan (VMap [(VStr "a", VList [VMap [(VStr "b", VInt 1); (VStr "c", VList [VStr "x"; VErr])]])]) = true)
     by reflexivity.
   split; [now apply scan_complete|]. split; [exact S|]. split; [now apply scan_complete|]. split.
   - eexists. split; [reflexivity|]. apply names_loc_fail_eval.
@@ -159,5 +149,5 @@ Print Assumptions C10_evaluate_predicates_failure_is_permfail.
 Print Assumptions C10_evaluate_predicates_no_data.
 Print Assumptions C10_evaluate_predicates_from_clean.
 Print Assumptions C10_vf_no_leak.
-Print Assumptions C10_vf_exception_escapes_refuted.
+Print Assumptions C10_no_exception_escapes.
 Print Assumptions C10_rf_no_leak_partial.
